@@ -121,6 +121,7 @@ class C10(Check):
         fi = rng.randrange(len(FLOW[dim]))
         nb = prng.weighted_choice(rng, [(1, 4), (2, 4), (3, 2)])
         reset = nb == 1 and rng.random() < 0.5
+        explicit = rng.random() < 0.5
         bodies = []
         for _ in range(nb):
             kind = prng.weighted_choice(rng, BODY_KINDS[dim])
@@ -133,6 +134,11 @@ class C10(Check):
                     "hfac": rng.choice([0.5, 1.0, 1.7, 0.9]),
                     "sub": prng.sub_seed(rng),
                     "t0": rng.choice([0.0, 0.0, 1.25]),
+                    # reset mode is a per-interaction option: with several bodies a resetting one
+                    # overwrites whatever the others spread before it
+                    "reset": (rng.random() < 0.25) if nb > 1 else reset,
+                    "explicit_args": explicit,
+                    "num_threads": rng.choice([False, False, 2]),
                 }
             )
         ops = []
@@ -190,7 +196,12 @@ class C10(Check):
         state_arrays = {}
         common = dict(
             virtual_boundary_stiffness_coeff=spec["k"], virtual_boundary_damping_coeff=spec["c"], dx=dx, grid_dim=dim, real_t=real_t, start_time=spec["t0"],
+            num_threads=spec.get("num_threads", False),
         )
+        if spec.get("explicit_args"):
+            # the documented defaults, passed explicitly: exercises the positional pass-through of the subclasses
+            common.update(eul_grid_coord_shift=real_t(dx / 2), interp_kernel_width=2)
+        reset = bool(spec.get("reset", reset))
 
         def build(enable_reset, forcing_field):
             kw = dict(common, eul_grid_forcing_field=forcing_field, eul_grid_velocity_field=velocity, enable_eul_grid_forcing_reset=enable_reset)
@@ -319,7 +330,7 @@ class C10(Check):
         n = int(inter.forcing_grid.num_lag_nodes)
         model = PIModel(dim, n, spec["k"], spec["c"], h_max, spec["t0"])
         h_rel = 1.0e-11 if kind.startswith("rod") else 1.0e-15  # elastica regularises rod.lengths at the 1e-13 level
-        return {"h_rel": h_rel, "inter": inter, "twin": twin, "twin_field": twin_field, "model": model, "state": state_arrays, "move": move, "n": n, "kind": kind, "evals_since_step": 0, "ever_eval": False, "dts": []}
+        return {"reset": reset, "h_rel": h_rel, "inter": inter, "twin": twin, "twin_field": twin_field, "model": model, "state": state_arrays, "move": move, "n": n, "kind": kind, "evals_since_step": 0, "ever_eval": False, "dts": []}
 
     @staticmethod
     def _rigid_marker_velocity(b, it, dim):
@@ -355,11 +366,12 @@ class C10(Check):
         forcing = np.zeros((dim, *shape), dtype=real_t)
         reset = bool(program["reset"]) and len(program["bodies"]) == 1
         bodies = [self._make_body(s, i, dim, real_t, dx, lengths, forcing, velocity, reset) for i, s in enumerate(program["bodies"])]
+        reset = None  # per body from here on
         nb = len(bodies)
         uniform = [0.0] * dim  # current flow is uniform with this value, or None
         cell_vol = float(dx) ** dim
         nontrivial_step = False
-        sig0 = {"dim": dim, "reset": reset, "nb": nb}
+        sig0 = {"dim": dim, "reset": [x["reset"] for x in bodies], "nb": nb}
 
         def public(b):
             it = b["inter"]
@@ -438,6 +450,7 @@ class C10(Check):
                 b["ever_eval"] = True
                 # (d) Eulerian forcing field
                 if kind == "call":
+                    reset = b["reset"]
                     tf = b["twin_field"]
                     wmax = float(np.max(np.abs(np.asarray(tw.interp_weights, dtype=np.float64)), initial=0.0))
                     fmax = float(np.max(np.abs(F_obs), initial=0.0))
@@ -525,7 +538,7 @@ class C10(Check):
                 for k in sorted(pub):
                     res.log.array(k, pub[k])
             res.log.array("forcing", forcing)
-            res.log.state(dim, program["precision"], reset, nb, kind, b["kind"], b["evals_since_step"], uniform is None, bool(np.any(forcing != 0)))
+            res.log.state(dim, program["precision"], b["reset"], nb, kind, b["kind"], b["evals_since_step"], uniform is None, bool(np.any(forcing != 0)))
             res.add_sim("ops", 1)
         res.add_sim("forcing_clock_time", sum(sum(x["dts"]) for x in bodies))
         res.nontrivial = nontrivial_step
@@ -536,8 +549,6 @@ class C10(Check):
         for o in program["ops"]:
             if "body" in o:
                 o["body"] = o["body"] % nb
-        if nb > 1:
-            program["reset"] = False
         return program
 
     def simplify(self, program):
